@@ -17,13 +17,18 @@ MCOpts == {[lg |-> lg, sm |-> sm, inc |-> inc, mode |-> m] : lg \in {"year", "mo
                                                              inc \in {1, 2, 15}, m \in Modes5}
 QInstants == {-86400 - 6 * H, 7 * H - 1800, 7 * H, 12 * H, 86400 + 6 * H, 20 * 86400 - 12 * H, 20 * 86400 + 6 * H, 19 * 86400 + 5 * H + 1800, -30 * 86400 + 3 * H}
 QOpts == {o \in MCOpts : o.mode \in {"halfExpand", "ceil", "trunc"} /\ o.inc \in {1, 2}}
+QDiffModes == {"halfExpand"}
+TDiffModes == Modes5
 MCTotalUnits == {"month", "week", "day", "hour", "second"}
 ZCls(z) == IF NT(z) = 0 THEN "fixed" ELSE IF AbsI(z.trans[1].off - z.init) >= 23 * H THEN "24h" ELSE "dst"
 NearTransition == \E i \in 1..NT(last.z) : AbsI(last.z.trans[i].at - last.t) <= 3 * 86400
 Cls == last.op \o "/" \o ZCls(last.z) \o (IF NearTransition THEN "/near" ELSE "/far")
+       \o (IF last.op \in {"untilR", "sinceR"} THEN "/lg-" \o last.o.lg \o "/sm-" \o last.o.sm ELSE "")
        \o (IF last.op = "round" THEN "/lg-" \o last.o.lg \o "/sm-" \o last.o.sm ELSE IF last.op = "total" THEN "/" \o last.u ELSE "")
 CaseOf ==
   CASE last.op = "round" -> [op |-> "ZDur.round", cls |-> Cls, args |-> [zone |-> last.z, t |-> last.t, recv |-> last.dur, st |-> [largest |-> last.o.lg, smallest |-> last.o.sm, inc |-> last.o.inc, mode |-> last.o.mode]], out |-> last.out]
+    [] last.op \in {"untilR", "sinceR"} -> [op |-> IF last.op = "untilR" THEN "Zoned.until" ELSE "Zoned.since", cls |-> Cls,
+                                             args |-> [zone |-> last.z, t |-> last.t, other |-> last.t2, st |-> [largest |-> last.o.lg, smallest |-> last.o.sm, inc |-> last.o.inc, mode |-> last.o.mode]], out |-> last.out]
     [] last.op = "total" -> [op |-> "ZDur.total", cls |-> Cls, args |-> [zone |-> last.z, t |-> last.t, recv |-> last.dur, unit |-> last.u],
                              out |-> IF last.out.kind = "ok" THEN [kind |-> "ratio", n |-> FromInt(last.out.val.n), d |-> FromInt(last.out.val.d)] ELSE last.out]
     [] last.op = "compare" -> [op |-> "ZDur.compare", cls |-> Cls, args |-> [zone |-> last.z, t |-> last.t, recv |-> last.dur, other |-> last.b], out |-> last.out]
